@@ -292,6 +292,10 @@ func compileComments(comments []*commentBlock, node nodeContainer) []*commentBlo
 		nodes[0].getNode().Comments = append(
 			node.(AstNodable).getNode().Comments,
 			nodes[0].getNode().Comments...)
+		// The comments now belong to the first subnode only: a node which
+		// kept them as well would have them printed twice.
+		node.(AstNodable).getNode().scopeComments = nil
+		node.(AstNodable).getNode().Comments = nil
 	}
 	return comments
 }
